@@ -110,6 +110,8 @@ prop("C19", [
 prop("C20", [
     dict(engine="verus", unit="httpd", fns=["lease_entries", "json_string", "publish_gauges"]),
     dict(POOL_B, checks=["sql_metrics", "sql_list"]),
+    # the document itself, on the real serve_leases (body-independent: also judges a rewritten rendering chain)
+    dict(engine="sql", module="http", domain="stores of 0, 1, 3 and 5 leases; client identifiers of 0, 1, 2, 6 and 255 octets x host names absent / plain / quote+backslash / control characters / non-ASCII (28 listings)"),
 ], explanation="listing: one formatted entry per row returned by get_leases (Verus, slice of serve_leases); gauge query and listing query against the row set, bounded exhaustive on real SQLite",
     assumptions=["JSON validity is decided for the host name (json_string, every input string); the other fields are an Ipv4Addr, hex digits and integers rendered by core::fmt (outside Verus): their text and the punctuation of the surrounding format strings are NOT decided",
                  "format!(\"\\\\u{:04x}\", n) for n < 0x20 yields \\u followed by four lower-case hex digits (assumed)",
@@ -132,7 +134,8 @@ prop("C02", [
                  "the address arithmetic base == network() and get_or_insert_with glue around the slices is assumed (slice preconditions)"])
 
 prop("C03", [
-    dict(engine="verus", unit="dnsreply", fns=["DnsListenerHandler::create_in_reply"]),
+    # (run_tcp_reply: "never dropped" on the transport that has room -- what is written to a TCP client is the reply encoded with the TCP limit)
+    dict(engine="verus", unit="dnsreply", fns=["DnsListenerHandler::create_in_reply", "run_tcp_reply"]),
     dict(engine="verus", unit="dnsser", fns=["push_rr", "push_u16", "push_u32", "push_label", "push_str", "make_edns_opt", "EdnsData::push_opt", "lemma_record_roundtrip", "lemma_rr_tail"]),
     # the upstream reply as decoded: header bits, the response code's upper bits from the first version-0 OPT record, every record field
     dict(engine="verus", unit="dnsparse", fns=["PktParser::get_dns", "PktParser::get_rr", "PktParser::get_rdata", "PktParser::get_type", "PktParser::get_class", "PktParser::get_u32", "PktParser::get_u16", "PktParser::get_u8", "PktParser::get_bytes", "PktParser::get_string", "PktParser::get_domain", "PktParser::get_domain_into", "PktParser::get_question", "EdnsParser::get_options", "EdnsParser::get_option", "EdnsParser::get_u16", "EdnsParser::get_u8", "EdnsData::set_opt", "Label::from_vec", "Domain::from_labels"]),
